@@ -787,7 +787,7 @@ class Evaluator:
             if isinstance(a, (Rat, str, type(None))) and isinstance(b, (Rat, str, type(None))):
                 return sym == "!="
         if isinstance(a, (SeqV, WinV)) and isinstance(b, Rat) and b.is_const() and b.const_value() == 0 \
-                and sym in (">", "<", "=="):
+                and sym in (">", "<", "==", ">=", "<=", "!="):
             return MaskV(a, sym + "0")
         a, b = _as_rat(a), _as_rat(b)
         if a is None or b is None:
@@ -906,13 +906,22 @@ class Evaluator:
         raise Undecided("attribute access %s" % unparse(node)[:60], fr.f.loc(node))
 
     def count_atom(self, mask, fr, node):
+        if mask.op in (">=0", "<=0", "!=0"):
+            parts = {">=0": (">0", "==0"), "<=0": ("<0", "==0"), "!=0": (">0", "<0")}[mask.op]
+            return self.count_atom(MaskV(mask.base, parts[0]), fr, node) + \
+                self.count_atom(MaskV(mask.base, parts[1]), fr, node)
         sign = {">0": "+", "<0": "-", "==0": "0"}[mask.op]
         b = mask.base
+        # the three masks partition the pattern, so the neutral count is expressed through the other two
         if isinstance(b, SeqV) and b.kind == "cp":
-            return Rat.atom({"+": "npos", "-": "nneg", "0": "nneut"}[sign])
+            if sign == "0":
+                return Rat.atom("N") - Rat.atom("npos") - Rat.atom("nneg")
+            return Rat.atom({"+": "npos", "-": "nneg"}[sign])
         if isinstance(b, WinV) and b.base.kind == "cp":
             fr.note_window(b)
-            return Rat.atom("w" + {"+": "pos", "-": "neg", "0": "neut"}[sign])
+            if sign == "0":
+                return (b.hi - b.lo) - Rat.atom("wpos") - Rat.atom("wneg")
+            return Rat.atom("w" + {"+": "pos", "-": "neg"}[sign])
         raise Undecided("count over %r" % (b,), fr.f.loc(node))
 
     def eval_subscript(self, node, env, fr):
@@ -995,7 +1004,7 @@ class Evaluator:
             return ra * rb
         if op == "Div":
             if rb.n.is_zero():
-                raise Undecided("division by literal zero", fr.f.loc(node))
+                raise _Raised("ZeroDivisionError")
             return ra / rb
         if op == "Pow":
             return self.power(ra, rb, fr, node)
@@ -1074,7 +1083,8 @@ class Evaluator:
         if callee is None:
             raise Undecided("unresolved call %s" % unparse(node)[:60], fr.f.loc(node))
         if callee.key in self.opaque_calls:
-            return Rat.atom(self.opaque_calls[callee.key])
+            oc = self.opaque_calls[callee.key]
+            return oc if isinstance(oc, Rat) else Rat.atom(oc)
         if callee.mod.rel == tab.AA and not callee.cls:
             try:
                 return _wrap(tab.table_from_func(self.prog, callee.mod.rel, callee.qual))
@@ -1138,9 +1148,7 @@ class Evaluator:
             v = _as_rat(args[0])
             if v is None:
                 raise Undecided("abs() of non-number", fr.f.loc(node))
-            if v.is_const():
-                return Rat.const(abs(v.const_value()))
-            return abs_atom(v)
+            return self.abs_of(v)
         if name == "len" and len(args) == 1:
             a = args[0]
             if isinstance(a, SeqV):
@@ -1194,6 +1202,15 @@ class Evaluator:
                     return ARangeV(rs[0], rs[1])
         raise Undecided("builtin %s(%s) not modelled" % (name, unparse(node)[:50]), fr.f.loc(node))
 
+    def abs_of(self, v):
+        """|v| ; a denominator known to be positive is pulled out so that |x/N| and |x|/N share a form"""
+        if v.is_const():
+            return Rat.const(abs(v.const_value()))
+        from .dt import poly_sign_positive
+        if not v.d.is_const() and poly_sign_positive(v.d, self.positive):
+            return abs_atom(Rat(v.n)) / Rat(v.d)
+        return abs_atom(v)
+
     def floor_of(self, v, ceil=False):
         """floor (or ceil) of `integer-valued non-negative polynomial + rational constant`, when the
         atoms are declared non-negative integers (parity analysis); None if the shape does not fit"""
@@ -1239,7 +1256,7 @@ class Evaluator:
         if attr in ("abs", "absolute", "fabs") and len(args) == 1:
             a = _as_rat(args[0])
             if a is not None:
-                return abs_atom(a) if not a.is_const() else Rat.const(abs(a.const_value()))
+                return self.abs_of(a)
         if attr == "mod" and len(args) == 2:
             a, b = _as_rat(args[0]), _as_rat(args[1])
             if a is not None and b is not None:
